@@ -107,6 +107,12 @@ func c10Scenario(transport string, N, K int, seed uint64, record bool) (res c10R
 		a, b := gonet.Pipe()
 		recvEP = qnet.EndPointFinalizer(qnet.ConnStream(a), register)
 		sendStream = qnet.ConnStream(b)
+	case "qpipe":
+		// the package's own in-memory pair of end points (net.Pipe of bus/net)
+		a, b := qnet.Pipe()
+		register(a)
+		recvEP, sendEP = a, b
+		record = false
 	default:
 		var addr string
 		switch transport {
@@ -177,6 +183,9 @@ func c10Scenario(transport string, N, K int, seed uint64, record bool) (res c10R
 	sizes := make([]int, total+1)
 	for id := 1; id <= total; id++ {
 		sizes[id] = c10Size(r, transport != "mem")
+		if transport == "qpipe" && id%3 == 0 {
+			sizes[id] = 20000 + r.Intn(60000) // several senders' frames add up to more than any buffer in between
+		}
 	}
 	var wg sync.WaitGroup
 	start := make(chan struct{})
@@ -690,7 +699,7 @@ func runC10(r *Rand, tier string, o *Out) {
 		}
 		o.Count("busy-consumer")
 	}
-	transports := []string{"mem", "unix", "tcp", "tcps", "pipe"}
+	transports := []string{"mem", "unix", "tcp", "tcps", "pipe", "qpipe"}
 	rounds := 40
 	if tier == "thorough" {
 		rounds = 400
@@ -699,7 +708,7 @@ func runC10(r *Rand, tier string, o *Out) {
 		tr := transports[i%len(transports)]
 		N := r.Pick(2, 3, 4, 8, 16)
 		K := r.Pick(4, 16, 32, 64)
-		if tr == "mem" && K > 32 {
+		if (tr == "mem" || tr == "qpipe") && K > 32 {
 			K = 32
 		}
 		rec := 0
